@@ -1548,21 +1548,6 @@ class StateEngine(object):
                             )
 
                             """
-                            Tidy up self.branch_metadata for current execution_arn
-                            before republishing the state event. This is only
-                            needed when the state being retried is itself a Map
-                            or Parallel state whose failed attempt left results
-                            behind. It must not be done for e.g. a Task state
-                            retried *inside* a Branch or Iteration, as that would
-                            acknowledge the held events and discard the results
-                            already collected for the enclosing Map/Parallel
-                            state, which could then never complete its join.
-                            """
-                            if (execution_arn in self.branch_metadata and
-                                (state_type == "Map" or state_type == "Parallel")):
-                                self.check_pending_results(execution_arn)
-
-                            """
                             Republish the Task state event with the new
                             RetryCount and RetryTimeout set. We also adjust
                             EnteredTime above. The ASL spec is unclear on
@@ -1577,6 +1562,26 @@ class StateEngine(object):
                             to see what they actually do in this scenario.
                             """
                             self.event_dispatcher.publish(event)
+
+                            """
+                            Tidy up self.branch_metadata for current execution_arn
+                            *after* republishing the state event, as the tidy
+                            up acknowledges the events held for the branches of
+                            the failed attempt, which must not happen before
+                            the event that carries the execution forward has
+                            been published. This is only
+                            needed when the state being retried is itself a Map
+                            or Parallel state whose failed attempt left results
+                            behind. It must not be done for e.g. a Task state
+                            retried *inside* a Branch or Iteration, as that would
+                            acknowledge the held events and discard the results
+                            already collected for the enclosing Map/Parallel
+                            state, which could then never complete its join.
+                            """
+                            if (execution_arn in self.branch_metadata and
+                                (state_type == "Map" or state_type == "Parallel")):
+                                self.check_pending_results(execution_arn)
+
                             retry_matched = True
 
                         break
